@@ -328,7 +328,7 @@ func runC18C(e *Env, r *core.Run) {
 				out := sh.op(o.kind, o.i)
 				rt.ExitOp()
 				got[i][j] = out
-				l.Ev("return %s #%d -> %s", cOpNames[o.kind], o.i, core.Hex8(out))
+				l.Ev("return %s #%d -> %s", cOpNames[o.kind], o.i, core.H(out))
 				r.Count(cC_ops)
 				r.Count(cC_kind[o.kind])
 			}
